@@ -27,9 +27,9 @@ from ..pyutils import (
 from ..type import (
     GraphQLInputType,
     GraphQLScalarType,
-    assert_leaf_type,
     is_enum_type,
     is_input_object_type,
+    is_leaf_type,
     is_list_type,
     is_non_null_type,
     is_required_input_field,
@@ -175,7 +175,8 @@ def validate_input_value_impl(
                         Path(path, field_name, type_.name),
                     )
     else:
-        assert_leaf_type(type_)
+        if not is_leaf_type(type_):
+            return  # not an input type at all, this is reported by schema validation
 
         result: Any = Undefined
         caught_error: Exception | None = None
@@ -439,7 +440,9 @@ def validate_input_literal_impl(
                     Path(path, field_name, None),
                 )
     else:
-        leaf_type = assert_leaf_type(type_)
+        if not is_leaf_type(type_):
+            return  # not an input type at all, this is reported by schema validation
+        leaf_type = type_
 
         result: Any = Undefined
         caught_error: Exception | None = None
